@@ -7,5 +7,6 @@ CONSTANTS
   Scale = 2
   MaxAdmin = 1
   MaxQuery = 1
+  Fault = "none"
   MaxLen = 1
 INVARIANTS TypeOK LogExactlyOnce StatsTotals DeniedLeavesNoTrace EffectOfSettings ViewSound
